@@ -287,7 +287,8 @@ Proof.
   apply wp_bind. apply wp_cbo_eq. simp_w.
   destruct (HCK (cb w) (fst p)) as (k' & s1 & Hk & Hck). rewrite Hk. cbn [fst snd].
   apply wp_bind. apply wp_emit.
-  apply wp_bind. apply wp_cbo_eq. simp_w.
+  (* under HCV the value clone never panics: the unwinding wrapper is inert *)
+  apply wp_bind. apply wp_on_unwind_nopanic. apply wp_cbo_eq. simp_w.
   destruct (HCV s1 (snd p)) as (v' & s2 & Hv & Hcv). rewrite Hv. cbn [fst snd].
   apply wp_ret. simp_w. split; [reflexivity|]. split; [split; assumption|].
   unfold logged. simp_w. rewrite app_assoc. reflexivity.
